@@ -980,3 +980,65 @@ def all_steps(plan):
     for s in plan.steps:
         rec(s)
     return out
+
+
+# ------------------------------------------------------------------ model variants (pending repairs)
+def local_names(query):
+    """lower-cased table aliases and CTE names of a real tree, collected with the real walker — what the
+    alias-aware cut (fixes/C11_2.diff) takes as `names`"""
+    from mindsdb_sql.planner.utils import query_traversal
+    out = []
+
+    def cb(node, is_table, **kw):
+        if is_table and getattr(node, 'alias', None) is not None:
+            out.append(str(node.alias.parts[-1]).lower())
+        if getattr(node, 'cte', None):
+            out.extend(str(c.name.parts[-1]).lower() for c in node.cte)
+    query_traversal(copy.deepcopy(query), cb)
+    return sorted(set(out))
+
+
+class Variants:
+    """the planner must follow ONE combination of (get_query_info: as pinned '' | bare CTE names skipped 'N')
+    x (cut: as pinned '' | alias-aware 'A') on every case"""
+    COMBOS = [('', ''), ('', 'A'), ('N', ''), ('N', 'A')]
+
+    def __init__(self):
+        self.miss = {c: None for c in self.COMBOS}
+
+    def note(self, combo, why):
+        if self.miss[combo] is None:
+            self.miss[combo] = why
+
+    def plan_case(self, real, o, ctx):
+        def info(v):
+            m = o['info' + v]
+            if m is None:
+                return None
+            return dict(mdb=m['mdb'], ints=sorted(dec(x) for x in m['ints']), preds=m['preds'], udf=m['udf'])
+        for v, a in self.COMBOS:
+            msingle = None if o['single' + v] is None else dec(o['single' + v])
+            why = None
+            if real['info'] != info(v) and not isinstance(real['info'], tuple):
+                why = dict(ctx, field='query_info', impl=real['info'], model=info(v))
+            elif real['single'] != msingle and not isinstance(real['single'], tuple):
+                why = dict(ctx, field='check_single_integration', impl=real['single'], model=msingle)
+            elif msingle is not None and real['idents'] != model_idents(o['idents' + v + a]):
+                why = dict(ctx, field='stripped-identifiers', impl=real['idents'], model=model_idents(o['idents' + v + a]))
+            elif msingle is not None and real.get('steps') != 1:
+                why = dict(ctx, field='steps', impl=real.get('steps'), model=1)
+            if why:
+                self.note((v, a), why)
+
+    def strip_case(self, real, o, ctx):
+        for v, a in self.COMBOS:
+            mod = model_idents(o['idents' + a])
+            if real != mod:
+                self.note((v, a), dict(ctx, field='prepare_integration_select', impl=real, model=mod))
+
+    def verdict(self):
+        ok = [c for c in self.COMBOS if self.miss[c] is None]
+        name = lambda c: 'get_query_info=%s, cut=%s' % ('cte-skipping' if c[0] else 'pinned', 'alias-aware' if c[1] else 'pinned')
+        if ok:
+            return True, name(ok[0]), ''
+        return False, None, '; '.join('%s: %s' % (name(c), json.dumps(self.miss[c], default=str)[:500]) for c in self.COMBOS)
